@@ -49,7 +49,9 @@ def refactors_for(pid):
 
 def run(pid):
     pats = patches_for(pid)
-    pats = [(r, p, "caught" if c else "miss") for r, p, c in pats] + [(r, p, "silent") for r, p in refactors_for(pid)]
+    pats = [(r, p, "caught" if c else "miss") for r, p, c in pats]
+    if not os.environ.get("VERIF_SELFTEST_SKIP_REFACTORS"):
+        pats += [(r, p, "silent") for r, p in refactors_for(pid)]
     if not pats:
         print("[%s] self-test: no variants recorded" % pid)
         return 0
